@@ -47,8 +47,8 @@ def valIn (v : AVal) (l : List Bytes) : Bool :=
 /-- `avalue.lower() in <list of str>`; `.lower()` on a list or Command raises -/
 def valLowerIn (v : AVal) (l : List Bytes) : Except CmdErr Bool :=
   match v with
-  | .str r => pure (decide (B.lower r ∈ l))
-  | _ => throw (.crash "AttributeError: lower")
+  | .str r => .ok (decide (B.lower r ∈ l))
+  | _ => .error (.crash "AttributeError: lower")
 
 def requiredCount (defs : List ArgDef) : Nat := (defs.filter (·.required)).length
 
@@ -68,6 +68,18 @@ def isComplete (variableArgs : Bool) (defs : List ArgDef) (st : CState)
     (a : Option (ArgType × AVal)) : Bool :=
   if variableArgs then false else pendingOk st a && st.rargsCnt == requiredCount defs
 
+/-- `ext and ext not in loaded_extensions` -/
+def extMissing (ext : Option Bytes) (loaded : List Bytes) : Bool :=
+  match ext with
+  | some e => !decide (e ∈ loaded)
+  | none => false
+
+/-- `"values" in arg and x in arg["values"]` -/
+def inValues (vals : Option (List Bytes)) (x : Bytes) : Bool :=
+  match vals with
+  | some vs => decide (x ∈ vs)
+  | none => false
+
 /-- `__is_valid_type` -/
 def validType (t : ArgType) (ts : List ArgType) : Bool :=
   decide (t ∈ ts) || (t == .string && decide (ArgType.stringlist ∈ ts))
@@ -77,23 +89,22 @@ def extLookup (l : List (Bytes × Bytes)) (k : Bytes) : Option Bytes :=
 
 /-- `__is_valid_value_for_arg` -/
 def validValue (d : ArgDef) (v : AVal) (loaded : List Bytes) (checkExt : Bool) : Except CmdErr Bool :=
-  if d.values.isNone && d.extValues.isEmpty then pure true else
+  if d.values.isNone && d.extValues.isEmpty then .ok true else
   match v with
   | .str raw =>
-    let low := B.lower raw
-    if (match d.values with | some vs => decide (low ∈ vs) | none => false) then pure true else
-    match extLookup d.extValues low with
-    | some ext => if checkExt && !decide (ext ∈ loaded) then throw (.extNotLoaded ext) else pure true
-    | none => pure false
-  | _ => throw (.crash "AttributeError: lower")
+    if inValues d.values (B.lower raw) then .ok true else
+    match extLookup d.extValues (B.lower raw) with
+    | some ext => if checkExt && !decide (ext ∈ loaded) then .error (.extNotLoaded ext) else .ok true
+    | none => .ok false
+  | _ => .error (.crash "AttributeError: lower")
 
 /-- does the optional slot keep waiting for a parameter after this tag? -/
 def wantsExtra (d : ArgDef) (v : AVal) : Except CmdErr Bool :=
   match d.extra with
-  | none => pure false
+  | none => .ok false
   | some e =>
     match e.validFor with
-    | none => pure true
+    | none => .ok true
     | some vf => valLowerIn v vf
 
 def setArg (add : Bool) (l : List Arg) (a : Arg) : List Arg := if add then assocSet l a else l
@@ -103,49 +114,56 @@ def appendTest (l : List Arg) (k : String) (v : AVal) : Except CmdErr (List Arg)
   match v with
   | .test n =>
     match assocGet l k with
-    | some (.tests _ ts) => pure (assocSet l (.tests k (ts ++ [n])))
-    | some _ => throw (.crash "TypeError: += on non-list")
-    | none => pure (l ++ [.tests k [n]])
-  | _ => throw (.crash "unreachable: non-test appended")
+    | some (.tests _ ts) => .ok (assocSet l (.tests k (ts ++ [n])))
+    | some _ => .error (.crash "TypeError: += on non-list")
+    | none => .ok (l ++ [.tests k [n]])
+  | _ => .error (.crash "unreachable: non-test appended")
 
-/-- the `while pos < len(args_definition)` loop; first argument = `args_definition[pos:]`.
-    `Except.ok none` never happens; result is the new state. -/
+/-- an optional slot takes the value: extension check, then record -/
+def takeOptional (loaded : List Bytes) (checkExt add : Bool) (v : AVal) (st : CState) (d : ArgDef) :
+    Except CmdErr (CState × Placement) :=
+  if checkExt && extMissing d.extension loaded then
+    .error (.extNotLoaded (d.extension.getD []))
+  else
+    match wantsExtra d v with
+    | .error e => .error e
+    | .ok w =>
+      .ok ({ st with curarg := if w then some d else st.curarg,
+                     arguments := setArg add st.arguments (v.toArg d.name) },
+           if add then .arg d.name else .nowhere)
+
+/-- a required (non-testlist) slot takes the value -/
+def takeRequired (add : Bool) (v : AVal) (st : CState) (d : ArgDef) (pos : Nat) : CState × Placement :=
+  ({ st with curarg := some d, rargsCnt := st.rargsCnt + 1, nextargpos := pos + 1,
+             arguments := setArg add st.arguments (v.toArg d.name) },
+   if add then .arg d.name else .nowhere)
+
+/-- the `while pos < len(args_definition)` loop; first argument = `args_definition[pos:]`. -/
 def scan (cmdName : Bytes) (loaded : List Bytes) (checkExt add : Bool) (t : ArgType) (v : AVal)
     (st : CState) : List ArgDef → Nat → Except CmdErr (CState × Placement)
-  | [], _ => pure (st, .nowhere)
+  | [], _ => .ok (st, .nowhere)
   | d :: rest, pos =>
     if d.required then
       if d.types == [.testlist] then
-        if t != .test then throw (.badArgument cmdName)
-        else if add then do
-          let args ← appendTest st.arguments d.name v
-          pure ({ st with arguments := args }, .elem d.name)
-        else pure (st, .nowhere)
-      else if !validType t d.types then throw (.badArgument cmdName)
-      else do
-        let ok ← validValue d v loaded checkExt
-        if !ok then throw (.badArgument cmdName)
-        else pure ({ st with curarg := some d, rargsCnt := st.rargsCnt + 1, nextargpos := pos + 1,
-                             arguments := setArg add st.arguments (v.toArg d.name) },
-                   if add then .arg d.name else .nowhere)
-    else if decide (t ∈ d.types) then do
-      let ok ← validValue d v loaded checkExt
-      let ok := ok && (decide (ArgType.tag ∈ d.types) || !assocHas st.arguments d.name)
-      if ok then
-        match d.extension with
-        | some ext =>
-          if checkExt && !decide (ext ∈ loaded) then throw (.extNotLoaded ext)
-          else do
-            let w ← wantsExtra d v
-            pure ({ st with curarg := if w then some d else st.curarg,
-                            arguments := setArg add st.arguments (v.toArg d.name) },
-                  if add then .arg d.name else .nowhere)
-        | none => do
-          let w ← wantsExtra d v
-          pure ({ st with curarg := if w then some d else st.curarg,
-                          arguments := setArg add st.arguments (v.toArg d.name) },
-                if add then .arg d.name else .nowhere)
-      else scan cmdName loaded checkExt add t v st rest (pos + 1)
+        if t != .test then .error (.badArgument cmdName)
+        else if add then
+          match appendTest st.arguments d.name v with
+          | .error e => .error e
+          | .ok args => .ok ({ st with arguments := args }, .elem d.name)
+        else .ok (st, .nowhere)
+      else if !validType t d.types then .error (.badArgument cmdName)
+      else
+        match validValue d v loaded checkExt with
+        | .error e => .error e
+        | .ok false => .error (.badArgument cmdName)
+        | .ok true => .ok (takeRequired add v st d pos)
+    else if decide (t ∈ d.types) then
+      match validValue d v loaded checkExt with
+      | .error e => .error e
+      | .ok ok =>
+        if ok && (decide (ArgType.tag ∈ d.types) || !assocHas st.arguments d.name) then
+          takeOptional loaded checkExt add v st d
+        else scan cmdName loaded checkExt add t v st rest (pos + 1)
     else scan cmdName loaded checkExt add t v st rest (pos + 1)
 
 /-- the pending tag parameter, if the current argument expects one -/
@@ -162,17 +180,18 @@ def extraAccepts (e : ExtraDef) (t : ArgType) (v : AVal) : Bool :=
 /-- `check_next_arg`; `ok none` = Python `return False` -/
 def checkNextArg (d : CmdDef) (loaded : List Bytes) (st : CState) (t : ArgType) (v : AVal)
     (add : Bool := true) (checkExt : Bool := true) : Except CmdErr (Option (CState × Placement)) :=
-  if d.args.isEmpty then pure none
-  else if isComplete d.variableArgs d.args st (some (t, v)) then pure none
+  if d.args.isEmpty then .ok none
+  else if isComplete d.variableArgs d.args st (some (t, v)) then .ok none
   else
     match pendingExtra st with
     | some (c, e) =>
       if extraAccepts e t v then
-        pure (some ({ st with extraArgs := setArg add st.extraArgs (v.toArg c.name), curarg := none },
+        .ok (some ({ st with extraArgs := setArg add st.extraArgs (v.toArg c.name), curarg := none },
                     if add then .extra c.name else .nowhere))
-      else throw (.badValue c.name)
-    | none => do
-      let r ← scan d.name loaded checkExt add t v st (d.args.drop st.nextargpos) st.nextargpos
-      pure (some r)
+      else .error (.badValue c.name)
+    | none =>
+      match scan d.name loaded checkExt add t v st (d.args.drop st.nextargpos) st.nextargpos with
+      | .error e => .error e
+      | .ok r => .ok (some r)
 
 end Args
